@@ -11,7 +11,9 @@ fn main() {
     lab.worker = Some(Box::new(worker::run));
     let threads = std::env::var("FETCHLAB_THREADS").ok().and_then(|t| t.parse().ok()).unwrap_or(8);
     let (fixed, is_replay) = ctx.fixed_inputs();
+    let mut inconclusive = 0u64;
     for e in lab.run_many(&fixed, Prop::C02, threads) {
+        inconclusive += e.outcome.tags.iter().filter(|t| *t == "worker-inconclusive-skipped").count() as u64;
         ctx.count("corpus-or-replay");
         ctx.record(&e.line, e.outcome);
     }
@@ -25,9 +27,16 @@ fn main() {
                     ctx.count("generator-discarded");
                     continue;
                 }
+                inconclusive += e.outcome.tags.iter().filter(|t| *t == "worker-inconclusive-skipped").count() as u64;
                 ctx.record(&e.line, e.outcome);
             }
         }
+    }
+    if inconclusive > 0 {
+        ctx.note(
+            "worker-inconclusive-skipped",
+            format!("{inconclusive} node-level run(s) got no verdict after 3 attempts (timeouts / connection problems under load); those cases were recorded without the node-level observation"),
+        );
     }
     ctx.finish(gen::C02_RULE, false);
 }
